@@ -23,6 +23,7 @@ _counter = itertools.count(1)
 
 
 # ------------------------------------------------------------------------------------------- N1 constants
+_ENUM_VALUES = {}   # enum classes defined in the module being normalised: class -> {member: literal value}
 _MODULE_CLASSES = set()   # class names bound exactly once at module level of the module being normalised (set by collect_constants)
 
 
@@ -46,15 +47,23 @@ def is_const_expr(n, known):
         return True
     if isinstance(n, ast.Name) and n.id in _MODULE_CLASSES:
         return True          # another name for a class of the module (defined or imported once at module level)
+    if _enum_member(n) and n.value.id in _MODULE_CLASSES:
+        return True          # another name for a member of a class of the module (an enum member: `_UNUSED = BlockType.unusedSlot`)
     if isinstance(n, ast.Dict) and n.keys and len(n.keys) <= 24 and all(k is not None and (isinstance(k, ast.Constant) or _enum_member(k)) for k in n.keys) \
             and all(isinstance(v, (ast.Name, ast.Constant)) or (isinstance(v, ast.Attribute) and isinstance(v.value, ast.Name) and v.value.id not in ("self", "cls")) for v in n.values):
         return True  # a dispatch table
     if isinstance(n, ast.Call) and ast.unparse(n.func) in ("np.dtype", "numpy.dtype") and len(n.args) == 1 and isinstance(n.args[0], ast.Constant):
         return True
+    # <codec>.nBytes() / <codec>.nBytes(3) / <codec>.btype.itemsize: the byte size of a module-level codec object
+    if isinstance(n, ast.Call) and isinstance(n.func, ast.Attribute) and n.func.attr == "nBytes" and isinstance(n.func.value, ast.Name) and not n.keywords \
+            and len(n.args) <= 1 and all(isinstance(a, ast.Constant) and isinstance(a.value, int) for a in n.args):
+        return True
+    if isinstance(n, ast.Attribute) and n.attr == "itemsize" and isinstance(n.value, ast.Attribute) and n.value.attr == "btype" and isinstance(n.value.value, ast.Name):
+        return True
     if isinstance(n, ast.Call) and ast.unparse(n.func) in ("attrgetter", "operator.attrgetter", "itemgetter", "operator.itemgetter", "struct.Struct", "Struct") \
             and len(n.args) == 1 and isinstance(n.args[0], ast.Constant) and not n.keywords:
         return True
-    if isinstance(n, ast.Call) and ast.unparse(n.func) in ("attrgetter", "operator.attrgetter", "methodcaller", "operator.methodcaller") \
+    if isinstance(n, ast.Call) and ast.unparse(n.func) in ("attrgetter", "operator.attrgetter", "methodcaller", "operator.methodcaller", "itemgetter", "operator.itemgetter") \
             and 1 < len(n.args) <= 8 and all(isinstance(a, ast.Constant) for a in n.args) and not n.keywords:
         return True
     if isinstance(n, ast.Call) and ast.unparse(n.func) in ("partial", "functools.partial") and n.args and isinstance(n.args[0], ast.Attribute) and isinstance(n.args[0].value, ast.Name) \
@@ -105,6 +114,14 @@ def collect_constants(tree: ast.Module):
     mod = {}
     counts = {}
     _MODULE_CLASSES.clear()
+    _ENUM_VALUES.clear()
+    for st in tree.body:
+        if isinstance(st, ast.ClassDef) and any(ast.unparse(b) in ("Enum", "IntEnum", "enum.Enum", "enum.IntEnum") for b in st.bases):
+            vals = {}
+            for s_ in st.body:
+                if isinstance(s_, ast.Assign) and len(s_.targets) == 1 and isinstance(s_.targets[0], ast.Name) and isinstance(s_.value, ast.Constant):
+                    vals[s_.targets[0].id] = s_.value.value
+            _ENUM_VALUES[st.name] = vals
     bound = {}
     for st in tree.body:
         for nm in ([st.name] if isinstance(st, (ast.ClassDef, ast.FunctionDef)) else [a.asname or a.name for a in st.names] if isinstance(st, ast.ImportFrom)
@@ -439,7 +456,19 @@ class Helper:
         b = self.body
         if not b or not isinstance(b[-1], ast.Return) or b[-1].value is None:
             return False
-        return all(isinstance(s, ast.Assign) and len(s.targets) == 1 and isinstance(s.targets[0], ast.Name) for s in b[:-1])
+        if not all(isinstance(s, ast.Assign) and len(s.targets) == 1 and isinstance(s.targets[0], ast.Name) for s in b[:-1]):
+            return False
+        # folding the locals into the returned expression must neither duplicate nor reorder a computation with effects (a stream
+        # read): at most one local holds such a value and it is read exactly once; otherwise the helper is inlined as statements
+        impure = [s for s in b[:-1] if not _pure_expr(s.value)]
+        if len(impure) > 1:
+            return False
+        for s in impure:
+            nm = s.targets[0].id
+            loads = sum(1 for t in b[b.index(s) + 1:] for x in ast.walk(t) if isinstance(x, ast.Name) and x.id == nm and isinstance(x.ctx, ast.Load))
+            if loads != 1:
+                return False
+        return True
 
     def recursive(self):
         for n in ast.walk(self.node):
@@ -760,7 +789,12 @@ class Inliner:
                 if root_field is not None and getattr(st, root_field) is not None:
                     root = getattr(st, root_field)
                     from .normalize2 import eval_order
-                    hc = [n for n in eval_order(root) if isinstance(n, ast.Call) and self.lookup(n, cur_cls)[0] is not None
+                    # (not inside a comprehension / generator / lambda of that statement: there the call runs once per element, or later)
+                    nested_scope = {id(x) for sc in ast.walk(root) if isinstance(sc, (ast.ListComp, ast.SetComp, ast.DictComp, ast.GeneratorExp, ast.Lambda))
+                                    for part in ([sc.elt] if hasattr(sc, "elt") else [sc.key, sc.value] if isinstance(sc, ast.DictComp) else [sc.body])
+                                    + [i_ for g_ in getattr(sc, "generators", []) for i_ in g_.ifs] + [g_.iter for g_ in getattr(sc, "generators", [])[1:]]
+                                    for x in ast.walk(part)}
+                    hc = [n for n in eval_order(root) if isinstance(n, ast.Call) and id(n) not in nested_scope and self.lookup(n, cur_cls)[0] is not None
                           and not self.lookup(n, cur_cls)[0].is_expr and self.lookup(n, cur_cls)[0].node is not fn]
                     # several helper calls in one statement: bind them one by one, in evaluation order, when every other call
                     # encloses one of them (so nothing else is evaluated in between that could tell the difference)
@@ -1011,11 +1045,22 @@ def import_private_helpers(tree, trees, pkg):
         src = trees[parts[1]]
         src_b = _module_bindings(src)
         for a in list(st.names):
-            if not a.name.startswith("_") or a.name.startswith("__") or a.asname:
+            if a.name.startswith("__") or a.asname:
                 continue
             fn = next((d for d in src.body if isinstance(d, ast.FunctionDef) and d.name == a.name and not d.decorator_list), None)
             if fn is None:
                 continue
+            public = not a.name.startswith("_")
+            if public:
+                # a public function of another module is brought over only when it is a one-expression function (a named expression,
+                # e.g. "first item with this label") and is used here through direct calls only; it gets a private local name
+                fbody = [b for b in fn.body if not (isinstance(b, ast.Expr) and isinstance(b.value, ast.Constant))]
+                if not (len(fbody) == 1 and isinstance(fbody[0], ast.Return) and fbody[0].value is not None) or fn.args.vararg or fn.args.kwarg:
+                    continue
+                loads_ = [x for x in ast.walk(tree) if isinstance(x, ast.Name) and x.id == a.name and isinstance(x.ctx, ast.Load)]
+                calls_ = [x for x in ast.walk(tree) if isinstance(x, ast.Call) and isinstance(x.func, ast.Name) and x.func.id == a.name]
+                if not loads_ or len(loads_) != len(calls_) or any(isinstance(x, ast.Name) and x.id == a.name and isinstance(x.ctx, ast.Store) for x in ast.walk(tree)):
+                    continue
             bound = {x.arg for x in fn.args.posonlyargs + fn.args.args + fn.args.kwonlyargs} | {x.id for x in ast.walk(fn) if isinstance(x, ast.Name) and isinstance(x.ctx, ast.Store)}
             free = {x.id for x in ast.walk(fn) if isinstance(x, ast.Name) and isinstance(x.ctx, ast.Load)} - bound
             need, okk = [], True
@@ -1040,8 +1085,14 @@ def import_private_helpers(tree, trees, pkg):
                     tree.body.insert(0, ast.ImportFrom(module=mod, names=[ast.alias(name=orig, asname=None if orig == nm else nm)], level=0))
                 here[nm] = ("import", mod, orig)
             st.names = [x for x in st.names if x is not a]
-            tree.body.append(copy.deepcopy(fn))
-            here[a.name] = ("local", None, None)
+            fcopy = copy.deepcopy(fn)
+            if public:
+                fcopy.name = f"_imp_{a.name}"
+                for x in ast.walk(tree):
+                    if isinstance(x, ast.Name) and x.id == a.name and isinstance(x.ctx, ast.Load):
+                        x.id = fcopy.name
+            tree.body.append(fcopy)
+            here[fcopy.name] = ("local", None, None)
             copied.append(f"{parts[1]}.{a.name}")
         if not st.names:
             tree.body = [x for x in tree.body if x is not st]
@@ -1148,6 +1199,57 @@ def import_private_methods(tree, trees, pkg, modname):
     return done
 
 
+def positional_args(tree):
+    """self.m(b=2, a=1) / f(a=1, b=2)  ==>  self.m(1, 2) / f(1, 2)   for methods of the enclosing class and functions of the module
+    whose parameter list is plain (no *args / **kwargs / keyword-only) and when the keywords fill a prefix of it without gaps.
+    (Keyword values are evaluated in the order written; reordering is done only when they are free of calls.)"""
+    n = 0
+
+    def plain(fn, drop_first):
+        a = fn.args
+        if a.vararg or a.kwarg or a.kwonlyargs or a.posonlyargs:
+            return None
+        names = [x.arg for x in a.args]
+        return names[1:] if drop_first else names
+
+    modfuncs = {f.name: plain(f, False) for f in tree.body if isinstance(f, ast.FunctionDef)}
+
+    def fix(call, params):
+        nonlocal n
+        if params is None or not call.keywords or any(k.arg is None for k in call.keywords) or any(isinstance(a, ast.Starred) for a in call.args):
+            return
+        npos = len(call.args)
+        kw = {k.arg: k.value for k in call.keywords}
+        if len(kw) != len(call.keywords) or any(k not in params[npos:] for k in kw):
+            return
+        want = params[npos:npos + len(kw)]
+        if set(want) != set(kw):
+            return      # a gap: a defaulted parameter in between is left to its default
+        in_order = [k.arg for k in call.keywords] == want
+        if not in_order and any(isinstance(x, (ast.Call, ast.NamedExpr, ast.Await)) for v in kw.values() for x in ast.walk(v)):
+            return
+        call.args = list(call.args) + [kw[p] for p in want]
+        call.keywords = []
+        n += 1
+
+    for cls in [c for c in tree.body if isinstance(c, ast.ClassDef)]:
+        meths = {}
+        for m in cls.body:
+            if isinstance(m, ast.FunctionDef):
+                decs = [ast.unparse(d) for d in m.decorator_list]
+                if any(d.endswith(".setter") or d == "property" for d in decs):
+                    continue
+                meths.setdefault(m.name, []).append(plain(m, "staticmethod" not in decs))
+        for call in [c for c in ast.walk(cls) if isinstance(c, ast.Call)]:
+            f = call.func
+            if isinstance(f, ast.Attribute) and isinstance(f.value, ast.Name) and f.value.id in ("self", "cls", cls.name) and len(meths.get(f.attr, [])) == 1:
+                fix(call, meths[f.attr][0])
+    for call in [c for c in ast.walk(tree) if isinstance(c, ast.Call)]:
+        if isinstance(call.func, ast.Name) and call.func.id in modfuncs:
+            fix(call, modfuncs[call.func.id])
+    return n
+
+
 def _inline_helpers(tree, bases, info):
     """the helper inlining loop; returns True when a call site was inlined"""
     any_change = False
@@ -1237,6 +1339,7 @@ def normalise_module(tree: ast.Module):
                 if nm[:1].isupper() and not nm.isupper():
                     CLASS_NAMES.add(nm)
     bases = {st.name: [ast.unparse(b).split("[")[0] for b in st.bases] for st in tree.body if isinstance(st, ast.ClassDef)}
+    info["positional_args"] = positional_args(tree)
     mod, classes = collect_constants(tree)
     info["constants"] = len(mod) + sum(len(v) for v in classes.values())
     if mod or classes:
@@ -1262,6 +1365,8 @@ def normalise_module(tree: ast.Module):
             r = NamedTupleReduce(nts)
             r.visit(tree)
             again |= r.changed
+            from .normalize2 import record_locals
+            again |= bool(record_locals(tree, nts))
         for fn in [n for n in ast.walk(tree) if isinstance(n, ast.FunctionDef)]:
             again |= ForwardTemps().run(fn)
         ast.fix_missing_locations(tree)
@@ -1282,7 +1387,7 @@ def normalise_module(tree: ast.Module):
 
 
 # ------------------------------------------------------------------------------------------- N5 local copy propagation
-PURE_CALLS = {"len", "any", "all", "isinstance", "range", "enumerate", "min", "max", "sum", "int", "abs", "tuple", "hasattr", "bool", "str", "float",
+PURE_CALLS = {"BTSDate.write", "BTSString.write", "len", "any", "all", "isinstance", "range", "enumerate", "min", "max", "sum", "int", "abs", "tuple", "hasattr", "bool", "str", "float",
               "np.dtype", "numpy.dtype", "zip", "sorted", "reversed", "type", "slice", "nullcontext", "contextlib.nullcontext", "frozenset", "set", "list",
               "partial", "functools.partial", "attrgetter", "operator.attrgetter", "itemgetter", "operator.itemgetter", "product", "itertools.product",
               "methodcaller", "operator.methodcaller"}
@@ -1387,6 +1492,8 @@ def _kills(st, paths, names, attrs, value=None, alias=None):
                 return True
         if isinstance(n, ast.Subscript) and isinstance(n.ctx, (ast.Store, ast.Del)):
             p = ast.unparse(n.value)
+            if alias is not None and value is not None and _is_ref_path(value) and (p == ast.unparse(value) or p == alias or p.startswith(ast.unparse(value) + ".") or p.startswith(ast.unparse(value) + "[")):
+                continue  # an item store changes the object the reference denotes, not the reference
             if any(q == p or q.startswith(p + ".") or p.startswith(q + ".") for q in paths) or _root(n.value) in names and not paths:
                 return True
         if isinstance(n, ast.Call) and ast.unparse(n.func) not in PURE_CALLS:
@@ -1409,6 +1516,13 @@ def _kills(st, paths, names, attrs, value=None, alias=None):
             for a in list(n.args) + [k.value for k in n.keywords]:
                 r = _root(a) if isinstance(a, (ast.Name, ast.Attribute, ast.Subscript)) else None
                 if r in names and paths and any(q.split(".")[0] == r for q in paths) and not isinstance(f, ast.Attribute):
+                    if alias is not None and value is not None and _is_ref_path(value):
+                        # `alias = obj.attr` is a plain reference: the callee can change which object it denotes only by rebinding the
+                        # attribute, for which it needs the owner (a proper prefix of the path), not something read from below it
+                        at = ast.unparse(a)
+                        vt = ast.unparse(value)
+                        if not (vt == at or vt.startswith(at + ".")):
+                            continue
                     return True
     return False
 
@@ -1581,6 +1695,8 @@ class CopyProp:
                 its.append(n.iter)
             if isinstance(n, ast.Call) and isinstance(n.func, ast.Name) and n.func.id in consumers:
                 its += list(n.args)
+            if isinstance(n, ast.Assign) and len(n.targets) == 1 and isinstance(n.targets[0], (ast.Tuple, ast.List)) and isinstance(n.value, ast.Name):
+                its.append(n.value)      # a, b, c = X  iterates X once
             for it in its:
                 if isinstance(it, ast.Name):
                     consumed[it.id] = consumed.get(it.id, 0) + 1
@@ -1947,6 +2063,15 @@ class Canon(ast.NodeTransformer):
 
     def visit_Compare(self, node):
         self.generic_visit(node)
+        # E.a is E.b / E.a == E.b   for members of an Enum defined in this module: decided by the members (distinct values, no aliases)
+        if len(node.ops) == 1 and isinstance(node.ops[0], (ast.Is, ast.IsNot, ast.Eq, ast.NotEq)):
+            a_, b_ = node.left, node.comparators[0]
+            if all(isinstance(x, ast.Attribute) and isinstance(x.value, ast.Name) and x.value.id in _ENUM_VALUES and x.attr in _ENUM_VALUES[x.value.id] for x in (a_, b_)) \
+                    and a_.value.id == b_.value.id:
+                vals = _ENUM_VALUES[a_.value.id]
+                if len(set(map(repr, vals.values()))) == len(vals):
+                    same = a_.attr == b_.attr
+                    return ast.copy_location(ast.Constant(value=same if isinstance(node.ops[0], (ast.Is, ast.Eq)) else not same), node)
         # None == K / None != K  with K a literal that is not None
         def _lit(e):
             # (.. or the shape of an array / dtype: always a tuple)
@@ -2047,6 +2172,14 @@ class Canon(ast.NodeTransformer):
     def visit_Call(self, node):
         self.generic_visit(node)
         fname = ast.unparse(node.func) if isinstance(node.func, (ast.Name, ast.Attribute)) else ""
+        # zip(range(A, len(X)), X[A:])  ==>  enumerate(X[A:], start=A)        (the indices of the elements of the slice)
+        if fname == "zip" and len(node.args) == 2 and not node.keywords and isinstance(node.args[0], ast.Call) and ast.unparse(node.args[0].func) == "range" \
+                and len(node.args[0].args) == 2 and not node.args[0].keywords and isinstance(node.args[1], ast.Subscript) and isinstance(node.args[1].slice, ast.Slice) \
+                and node.args[1].slice.upper is None and node.args[1].slice.step is None and node.args[1].slice.lower is not None:
+            a_, hi = node.args[0].args
+            X = node.args[1].value
+            if ast.unparse(a_) == ast.unparse(node.args[1].slice.lower) and ast.unparse(hi) == f"len({ast.unparse(X)})" and _pure_expr(a_):
+                return ast.copy_location(ast.Call(func=ast.Name(id="enumerate", ctx=ast.Load()), args=[node.args[1]], keywords=[ast.keyword(arg="start", value=a_)]), node)
         # (f if c else g)(args)  ==>  f(args) if c else g(args)      (arguments free of calls)
         if isinstance(node.func, ast.IfExp) and not any(isinstance(x, ast.Call) for a in list(node.args) + [k.value for k in node.keywords] for x in ast.walk(a)):
             mk = lambda f: ast.Call(func=f, args=copy.deepcopy(node.args), keywords=copy.deepcopy(node.keywords))
@@ -2482,6 +2615,25 @@ class AppendLoops(ast.NodeTransformer):
             iff = stmts[-2]
             flipped = ast.copy_location(ast.If(test=ast.UnaryOp(op=ast.Not(), operand=iff.test), body=[stmts[-1]], orelse=[]), iff)
             stmts = stmts[:-2] + [flipped] + list(iff.body)
+        # try: BODY  except E as e: v = e  else: <exits>        AFTER..; raise v      ==>   try: BODY  except E as e: AFTER[v := e]..; raise e  else: <exits>
+        # (the statements behind the try run only when the handler ran: an exception carried out of its handler in a local)
+        for k_, t_ in enumerate(stmts):
+            if isinstance(t_, ast.Try) and len(t_.handlers) == 1 and t_.handlers[0].name and not t_.finalbody and t_.orelse and always_exits(t_.orelse) \
+                    and len(t_.handlers[0].body) == 1 and isinstance(t_.handlers[0].body[0], ast.Assign) and len(t_.handlers[0].body[0].targets) == 1 \
+                    and isinstance(t_.handlers[0].body[0].targets[0], ast.Name) and isinstance(t_.handlers[0].body[0].value, ast.Name) \
+                    and t_.handlers[0].body[0].value.id == t_.handlers[0].name:
+                v_ = t_.handlers[0].body[0].targets[0].id
+                e_ = t_.handlers[0].name
+                rest_ = stmts[k_ + 1:]
+                if rest_ and isinstance(rest_[-1], ast.Raise) and isinstance(rest_[-1].exc, ast.Name) and rest_[-1].exc.id == v_ and rest_[-1].cause is None \
+                        and not any(isinstance(x, ast.Name) and x.id == v_ and isinstance(x.ctx, ast.Store) for s_ in rest_ for x in ast.walk(s_)) \
+                        and not any(isinstance(x, ast.Name) and x.id == e_ for s_ in rest_ for x in ast.walk(s_)):
+                    class V(ast.NodeTransformer):
+                        def visit_Name(self, n):
+                            return ast.copy_location(ast.Name(id=e_, ctx=n.ctx), n) if n.id == v_ else n
+                    t_.handlers[0].body = [V().visit(s_) for s_ in rest_]
+                    stmts = stmts[:k_ + 1]
+                    break
         # try: x = E  except ..: raise ..        return x     ==>   try: return E  except ..: raise ..
         # (every handler leaves by raising, so the statement after the try runs only with x = E)
         if len(stmts) >= 2 and isinstance(stmts[-1], ast.Return) and isinstance(stmts[-1].value, ast.Name) and isinstance(stmts[-2], ast.Try):
